@@ -381,14 +381,34 @@ fn run_map(sc: &Scenario, idx: usize, c09: bool, obs: &mut Obs) {
                 continue;
             }
         };
+        // mod selections: legacy bit sets, plus the lazer-only mods that transform the map or the formula of this mode
+        // (mania Invert / HoldOff, taiko Random, osu!/catch Mirror, osu! Blinds / Traceable / Classic)
+        let mut sels: Vec<(String, rosu_pp::GameMods)> = mods_list.iter().map(|b| (b.to_string(), rosu_pp::GameMods::from(*b))).collect();
+        let lazer_sels: &[&str] = match t {
+            GameMode::Mania => &["IN", "HO", "IN,HO"],
+            GameMode::Taiko => &["RD"],
+            GameMode::Osu => &["MR", "BL", "TC,CL"],
+            GameMode::Catch => &["MR"],
+        };
+        for a in lazer_sels {
+            let cfg = if *a == "RD" {
+                crate::settings::Cfg { random_seed: Some(7 + idx as i32 % 5), da_scroll: Some(1.0), ..Default::default() }
+            } else {
+                crate::settings::Cfg::default().with_acronyms(a)
+            };
+            sels.push((a.to_string(), cfg.game_mods()));
+        }
         for (ri, &rate) in rates.iter().enumerate() {
-            for (mi, &mods) in mods_list.iter().enumerate() {
+            for (mi, (mods, game_mods)) in sels.iter().enumerate() {
                 // keep the product small: every rate with the first mods, every mods with the first rate
                 if ri > 0 && mi > 0 {
                     continue;
                 }
-                for ov in overrides {
-                    let mut d = Difficulty::new().mods(mods).clock_rate(rate);
+                for (oi, ov) in overrides.iter().enumerate() {
+                    if oi > 0 && mi >= mods_list.len() {
+                        continue;
+                    }
+                    let mut d = Difficulty::new().mods(game_mods.clone()).clock_rate(rate);
                     if let Some(x) = ov {
                         let wm = !c09 && (idx + ri + mi) % 2 == 1;
                         d = d.ar(*x, wm).cs(*x, wm).od(*x, wm).hp(*x, wm);
